@@ -29,6 +29,7 @@ EXPLANATION = (
     "not start from an arbitrary set element. R13.4: per-profile best hit keeps the maximum score and restores positional "
     "order. R13.5: the grouping sweep's running extent is a running maximum within a group."
     ' R13.6: the fallback of remove_incomplete offers the fragment that maximises length / profile length, the measure its threshold applies to.'
+    ' R13.7: the overlap groups of filter_results are formed from hits of the equivalence group under consideration only.'
 )
 UNDECIDED = [
     "optimality/completeness of the greedy single pass for chained overlaps",
@@ -698,6 +699,36 @@ def r13_6(ctx: Ctx) -> None:
         raise AnalysisError(f"{qual}: how the fallback chooses its fragment was not recognised")
 
 
+def r13_7(ctx: Ctx) -> None:
+    """ "the per-gene competition between equivalent detection profiles": only hits of the profiles of one equivalence
+        group compete with each other.  The pairs that form the overlap groups are drawn from hits filtered by membership
+        of their profile in the group under consideration (in the source of both loops, or as a test on the way to the
+        pair) - drawn from all hits of the gene, a hit of an unrelated profile that overlaps a member loses against it. """
+    from ..loopview import iteration_sources
+    from ..flow import path_facts as _pf
+    qual = "filter_results"
+    func = ctx.fn(CP, qual)
+    cfg = CFG(func)
+    groups_param = func.args.args[2].arg if len(func.args.args) > 2 else "equivalence_groups"
+    group_vars = {txt(lp.target) for lp in walk_local(func) if isinstance(lp, ast.For) and txt(lp.iter) == groups_param}
+    pairs = [n for n in walk_local(func) if isinstance(n, ast.Set) and len(n.elts) == 2 and all(isinstance(e, ast.Name) for e in n.elts)]
+    if not pairs or not group_vars:
+        raise AnalysisError(f"{qual}: the pair-wise grouping of overlapping hits (or the loop over the equivalence groups) was not found")
+    pair = pairs[0]
+    stmt = next(a for a in [pair] + list(_ancestors(pair)) if isinstance(a, ast.stmt))
+    facts = [(txt(e), t) for e, t in _pf(cfg, stmt)]
+    for member in (e.id for e in pair.elts):   # type: ignore[attr-defined]
+        restricted = any(t and any(text == f"{member}.query_id in {g}" for g in group_vars) for text, t in facts)
+        for loop in [lp for lp in enclosing_loops(stmt, stop=func) if isinstance(lp, ast.For) and txt(lp.target) == member]:
+            _, filters = iteration_sources(func, cfg, loop)
+            restricted = restricted or any(txt(cond) == f"{name}.query_id in {g}" for name, cond in filters for g in group_vars)
+        ctx.ob("R13.7", CP, stmt, qual, f"competitor `{member}` is of the equivalence group", restricted,
+               "hits compete only with hits of equivalent profiles",
+               detail="" if restricted else "pairs are drawn from every hit of the gene: with P and Q equivalent (not overlapping) and an "
+               "unrelated R overlapping P with a lower score, R is removed - and survives once Q is absent", form="; ".join(
+                   ("" if t else "not ") + text[:50] for text, t in facts)[:160])
+
+
 def run(ctx: Ctx) -> None:
     ctx.rule("R13.2", "interval kernels of the hit classes; greedy filter shapes", floor=9)
     ctx.rule("R13.3", "best-of-group selection is deterministic and strict", floor=3)
@@ -707,6 +738,8 @@ def run(ctx: Ctx) -> None:
     r13_4_5(ctx)
     ctx.rule("R13.6", "the fallback offers the proportionally most complete fragment", floor=1)
     r13_6(ctx)
+    ctx.rule("R13.7", "only hits of equivalent profiles compete in filter_results", floor=2)
+    r13_7(ctx)
     statement = "no set's iteration order reaches the position-sorted hit lists of the refinement"
     family_e.run_for(ctx, "R13.1", [CP, DOMID], floor=1, statement=statement,
                      only_functions={"filter_results", "filter_result_multiple", "hsp_overlap_size", "find_hmmer_hits",
